@@ -1134,8 +1134,8 @@ theorem Bank.send_none {b : Bank} {src dst : Acct} {d : Nat} {x : Int} (h : Bank
     · right; assumption
     · simp at h
 
-theorem lsrIter_inv {s s' : State} {app asset id : Nat} {rw : Rw} {cont : Bool} (hL : LInv s) (hC : CInvD D s) (hok : rw.ok)
-    (hkey : HasKey s app asset id) (h : lsrIter s app asset id rw = some (s', cont)) :
+theorem lsrIter_inv {s s' : State} {app asset id : Nat} {rw : Rw} {res : IterRes} (hL : LInv s) (hC : CInvD D s) (hok : rw.ok)
+    (hkey : HasKey s app asset id) (h : lsrIter s app asset id rw = some (s', res)) :
     LInv s' ∧ CInvD D s' ∧ ((∀ a, D a = 0) → Delta s s') ∧ (∀ id', HasKey s app asset id' → HasKey s' app asset id') ∧
     (∀ k, (Store.get s'.lookup k).isSome = (Store.get s.lookup k).isSome) := by
   obtain ⟨l, hl, happ, hasset⟩ := hkey
@@ -1220,8 +1220,8 @@ theorem lsrLoop_inv {app asset : Nat} (ids : List Nat) :
       obtain ⟨hL1, hC1, hD1, hk1, _⟩ := lsrIter_inv hL hC hok0 (hkeys id (by simp)) hit
       rw [hit] at h
       cases cont with
-      | false => simp at h; subst h; exact ⟨hL1, hC1, hD1⟩
-      | true =>
+      | stop => simp at h; subst h; exact ⟨hL1, hC1, hD1⟩
+      | next paid =>
         simp only at h
         obtain ⟨a, b, c⟩ := ih hL1 hC1 (fun rw hrw => hok rw (List.mem_of_mem_tail hrw))
           (fun id' hid' => hk1 id' (hkeys id' (List.mem_cons_of_mem _ hid'))) h
@@ -1476,5 +1476,286 @@ theorem repairedSurplusClose_inv {s s' : State} {app asset u : Nat} {lot : Int} 
 theorem repairedDebtClose_inv {s s' : State} {app asset : Nat} {c d : Int} (hL : LInv s) (hC : CInvD D s)
     (h : stepRepaired s (.v2DebtClose app asset c d) = some s') : LInv s' ∧ CInvD D s' ∧ Delta s s' :=
   auctionReturn_inv (app := app) (asset := asset) (x := d) hL hC h
+
+/-! ## the reward computed inside the model -/
+
+theorem LInv.frame {s s' : State} (h : LInv s) (h1 : s'.lockers = s.lockers) (h2 : s'.lookup = s.lookup)
+    (h3 : s'.lastId = s.lastId) (h4 : s'.bank = s.bank) : LInv s' := by
+  refine ⟨?_, ?_, ?_, ?_, ?_, ?_⟩
+  · rw [h1, h3]; exact h.idsLe
+  · rw [h1]; exact h.netNonneg
+  · intro k; have := h.depEq k; unfold dep at this ⊢; rw [h1, h2]; exact this
+  · intro a; have := h.custody a; unfold bal at this ⊢; rw [h2, h4]; exact this
+  · rw [h1, h2]; exact h.ids
+  · rw [h2]; exact h.depNonneg
+
+theorem CInvD.frame {s s' : State} (h : CInvD D s) (h1 : s'.fees = s.fees) (h2 : s'.bank = s.bank) : CInvD D s' := by
+  refine ⟨?_, ?_⟩
+  · rw [h1]; exact h.nonneg
+  · intro a; have := h.custody a; unfold bal at this ⊢; rw [h1, h2]; exact this
+
+theorem Delta.frame {s s1 s' : State} (h : Delta s s1) (h1 : s'.fees = s1.fees) (h2 : s'.bank = s1.bank) : Delta s s' := by
+  intro a; have := h a; unfold bal at this ⊢; rw [h1, h2]; exact this
+
+/-- whatever `math.Pow` returned: what is handed to the ledger is admissible — a paid reward is at least one whole unit. -/
+theorem trackerStep_pay_pos (tr x : Dec) (hge : Dec.one ≤ tr + x) : 1 ≤ (Accrual.trackerStep tr x).1 := by
+  have h0 : 0 ≤ tr + x := by simp only [Dec, Dec.one, Dec.P] at *; omega
+  unfold Accrual.trackerStep
+  simp only [hge, if_true]
+  simp only [Dec.truncateInt, Int.tdiv_eq_ediv_of_nonneg h0]
+  simp only [Dec, Dec.one, Dec.P] at *
+  omega
+
+theorem accrue_pay_pos (s : State) (ctx : Ctx) (app asset id : Nat) (pw : Option Int) (ρ : Int)
+    (h : (accrue s ctx app asset id pw).1 = .pay ρ) : 1 ≤ ρ := by
+  unfold accrue at h
+  split at h; · simp at h
+  split at h; · simp at h
+  split at h; · simp at h
+  split at h
+  · split at h
+    · rename_i x hx
+      simp only at h
+      split at h
+      · rename_i hge
+        simp at h
+        rw [← h]
+        exact trackerStep_pay_pos _ _ hge
+      · simp at h
+    · simp at h
+  · simp at h
+
+theorem accrue_ok (s : State) (ctx : Ctx) (app asset id : Nat) (pw : Option Int) : (accrue s ctx app asset id pw).1.ok := by
+  cases h : (accrue s ctx app asset id pw).1 with
+  | none => trivial
+  | fail => trivial
+  | pay ρ => have := accrue_pay_pos s ctx app asset id pw ρ h; show 0 ≤ ρ; omega
+
+def OpT.extOk : OpT → Prop
+  | .plain op => op.extOk
+  | _ => True
+
+def OpT.dmg : OpT → Nat → Int
+  | .plain op => op.dmg
+  | _ => fun _ => 0
+
+theorem OpT.dmg_nonneg (op : OpT) (a : Nat) : 0 ≤ op.dmg a := by
+  cases op <;> simp only [OpT.dmg] <;> first | exact Op.dmg_nonneg _ a | exact Int.le_refl 0
+
+theorem setTracker_frame (s : State) (id app : Nat) (t : Option Dec) :
+    (setTracker s id app t).lockers = s.lockers ∧ (setTracker s id app t).lookup = s.lookup ∧
+    (setTracker s id app t).lastId = s.lastId ∧ (setTracker s id app t).bank = s.bank ∧ (setTracker s id app t).fees = s.fees := by
+  cases t <;> simp [setTracker]
+
+theorem book_inv {s1 : State} (id app : Nat) (t : Option Dec) (ctx : Ctx) (hL : LInv s1) (hC : CInvD D s1) :
+    LInv (touch (setTracker s1 id app t) id ctx) ∧ CInvD D (touch (setTracker s1 id app t) id ctx) := by
+  obtain ⟨a, b, c, d, e⟩ := setTracker_frame s1 id app t
+  exact ⟨hL.frame a b c d, hC.frame e d⟩
+
+theorem HasKey.frame {s s' : State} {app asset id : Nat} (h : HasKey s app asset id) (h1 : s'.lockers = s.lockers) :
+    HasKey s' app asset id := by
+  obtain ⟨l, a, b, c⟩ := h; exact ⟨l, by rw [h1]; exact a, b, c⟩
+
+theorem lsrIterT_inv {s s' : State} {ctx : Ctx} {app asset id : Nat} {lsr : Dec} {cbt : Int} {ct : Bool} {pw : Option Int} {cont : Bool}
+    (hL : LInv s) (hC : CInvD D s) (hkey : HasKey s app asset id)
+    (h : lsrIterT s ctx app asset id lsr cbt ct pw = some (s', cont)) :
+    LInv s' ∧ CInvD D s' ∧ (∀ id', HasKey s app asset id' → HasKey s' app asset id') := by
+  unfold lsrIterT at h
+  split at h
+  · rename_i l lt hl hlt
+    split at h
+    · simp at h
+    · simp at h; obtain ⟨h1, _⟩ := h; subst h1; exact ⟨hL, hC, fun _ h => h⟩
+    · rename_i x hx
+      simp only at h
+      split at h
+      · rename_i hge
+        have hL0 : LInv ({ s with trackers := Store.put s.trackers (id, app) (Accrual.trackerStep (tracker s id app) x).2 } : State) :=
+          hL.frame rfl rfl rfl rfl
+        have hC0 : CInvD D ({ s with trackers := Store.put s.trackers (id, app) (Accrual.trackerStep (tracker s id app) x).2 } : State) :=
+          hC.frame rfl rfl
+        have hρ : Rw.ok (.pay (Accrual.trackerStep (tracker s id app) x).1) := by
+          show 0 ≤ _
+          have := trackerStep_pay_pos _ _ hge
+          omega
+        split at h
+        · simp at h
+        · rename_i s1 hit
+          obtain ⟨a, b, _, d, _⟩ := lsrIter_inv hL0 hC0 hρ (hkey.frame rfl) hit
+          simp at h; obtain ⟨h1, _⟩ := h; subst h1
+          exact ⟨a.frame rfl rfl rfl rfl, b.frame rfl rfl, fun id' hk => (d id' (hk.frame rfl)).frame rfl⟩
+        · rename_i s1 r hit
+          obtain ⟨a, b, _, d, _⟩ := lsrIter_inv hL0 hC0 hρ (hkey.frame rfl) hit
+          simp at h; obtain ⟨h1, _⟩ := h; subst h1
+          exact ⟨a, b, fun id' hk => d id' (hk.frame rfl)⟩
+      · simp at h; obtain ⟨h1, _⟩ := h; subst h1
+        exact ⟨hL.frame rfl rfl rfl rfl, hC.frame rfl rfl, fun id' hk => hk.frame rfl⟩
+  · simp at h
+
+theorem lsrLoopT_inv {ctx : Ctx} {app asset : Nat} {lsr : Dec} {cbt : Int} {ct : Bool} (ids : List Nat) :
+    ∀ {s s' : State} {pws : List (Option Int)}, LInv s → CInvD D s → (∀ id ∈ ids, HasKey s app asset id) →
+      lsrLoopT s ctx app asset lsr cbt ct ids pws = some s' → LInv s' ∧ CInvD D s' := by
+  induction ids with
+  | nil => intro s s' pws hL hC _ h; simp [lsrLoopT] at h; subst h; exact ⟨hL, hC⟩
+  | cons id ids ih =>
+    intro s s' pws hL hC hkeys h
+    unfold lsrLoopT at h
+    cases hit : lsrIterT s ctx app asset id lsr cbt ct (pws.headD none) with
+    | none => rw [hit] at h; simp at h
+    | some r =>
+      obtain ⟨s1, cont⟩ := r
+      obtain ⟨hL1, hC1, hk1⟩ := lsrIterT_inv hL hC (hkeys id (by simp)) hit
+      rw [hit] at h
+      cases cont with
+      | false => simp at h; subst h; exact ⟨hL1, hC1⟩
+      | true =>
+        simp only at h
+        exact ih hL1 hC1 (fun id' hid' => hk1 id' (hkeys id' (List.mem_cons_of_mem _ hid'))) h
+
+theorem iterateRewards_inv {s s' : State} {ctx : Ctx} {app asset : Nat} {lsr : Dec} {cbt : Int} {ct : Bool} {pws : List (Option Int)}
+    (hL : LInv s) (hC : CInvD D s) (h : iterateRewards s ctx app asset lsr cbt ct pws = some s') : LInv s' ∧ CInvD D s' := by
+  unfold iterateRewards at h
+  split at h
+  · simp at h; subst h; exact ⟨hL, hC⟩
+  · rename_i lk hlk
+    apply lsrLoopT_inv lk.ids hL hC _ h
+    intro id hid
+    obtain ⟨l, hl, hk⟩ := (hL.ids _ _ hlk).2 id hid
+    simp at hk
+    exact ⟨l, hl, hk.1, hk.2⟩
+
+/-- every timed operation, whatever `math.Pow` returned: the locker books stay exact, the collector books lose at most `dmg`. -/
+theorem stepT_inv {s s' : State} {ctx : Ctx} {op : OpT} (hL : LInv s) (hC : CInvD D s) (hext : op.extOk)
+    (h : stepT s ctx op = some s') : LInv s' ∧ CInvD (fun a => D a + op.dmg a) s' := by
+  have mono0 : ∀ {s1 : State}, CInvD D s1 → CInvD (fun a => D a + 0) s1 := fun hc => hc.mono (fun a => by omega)
+  cases op with
+  | create u app asset amt =>
+    simp only [stepT, Option.map_eq_some_iff] at h
+    obtain ⟨s1, hs, rfl⟩ := h
+    obtain ⟨a, b, _⟩ := create_inv hL hC hs
+    exact ⟨a.frame rfl rfl rfl rfl, mono0 (b.frame rfl rfl)⟩
+  | deposit u app asset id amt pw =>
+    simp only [stepT, Option.map_eq_some_iff] at h
+    obtain ⟨s1, hs, rfl⟩ := h
+    obtain ⟨a, b, _⟩ := deposit_inv hL hC (accrue_ok s ctx app asset id pw) hs
+    obtain ⟨a', b'⟩ := book_inv id app _ ctx a b
+    exact ⟨a', mono0 b'⟩
+  | withdraw u app asset id amt pw =>
+    simp only [stepT, Option.map_eq_some_iff] at h
+    obtain ⟨s1, hs, rfl⟩ := h
+    obtain ⟨a, b, _⟩ := withdraw_inv hL hC (accrue_ok s ctx app asset id pw) hs
+    obtain ⟨a', b'⟩ := book_inv id app _ ctx a b
+    exact ⟨a', mono0 b'⟩
+  | close u app asset id pw =>
+    simp only [stepT, Option.map_eq_some_iff] at h
+    obtain ⟨s1, hs, rfl⟩ := h
+    obtain ⟨a, b, _⟩ := close_inv hL hC (accrue_ok s ctx app asset id pw) hs
+    exact ⟨a.frame rfl rfl rfl rfl, mono0 (b.frame rfl rfl)⟩
+  | rewardCalc app id pw =>
+    simp only [stepT] at h
+    split at h; · simp at h
+    rename_i l hl
+    simp only [Option.map_eq_some_iff] at h
+    obtain ⟨s1, hs, rfl⟩ := h
+    obtain ⟨a, b, _⟩ := rewardCalc_inv hL hC (accrue_ok s ctx app l.asset id pw) hs
+    split
+    · exact ⟨a, mono0 b⟩
+    · obtain ⟨a', b'⟩ := book_inv id app (some _) ctx a b
+      exact ⟨a', mono0 b'⟩
+  | lsrUpdate app asset c pws =>
+    simp only [stepT] at h
+    split at h; · simp at h
+    rename_i old hold
+    have fin : ∀ {s1 : State} (bh bt : Int), LInv s1 → CInvD D s1 →
+        LInv ({ s1 with collk := Store.put s1.collk (app, asset) { c with bh := bh, bt := bt } } : State) ∧
+        CInvD (fun a => D a + 0) ({ s1 with collk := Store.put s1.collk (app, asset) { c with bh := bh, bt := bt } } : State) :=
+      fun _ _ a b => ⟨a.frame rfl rfl rfl rfl, mono0 (b.frame rfl rfl)⟩
+    split at h
+    · split at h
+      · simp only [Option.map_eq_some_iff] at h
+        obtain ⟨s1, hs, rfl⟩ := h
+        obtain ⟨a, b⟩ := iterateRewards_inv hL hC hs
+        exact fin _ _ a b
+      · split at h
+        · simp at h; subst h; exact fin _ _ hL hC
+        · split at h
+          · simp only [Option.map_eq_some_iff] at h
+            obtain ⟨s1, hs, rfl⟩ := h
+            obtain ⟨a, b⟩ := iterateRewards_inv hL hC hs
+            exact fin _ _ a b
+          · simp at h; subst h; exact fin _ _ hL hC
+    · simp at h; subst h; exact fin _ _ hL hC
+  | wlReward app asset =>
+    simp only [stepT] at h
+    split at h; · simp at h
+    split at h
+    · simp at h; subst h; exact ⟨hL, mono0 hC⟩
+    · simp at h; subst h; exact ⟨hL.frame rfl rfl rfl rfl, mono0 (hC.frame rfl rfl)⟩
+  | plain op =>
+    simp only [stepT] at h
+    split at h
+    · exact step_invD hL hC hext h
+    · simp at h
+
+/-! ## a paid reward never exceeds the recorded net fees of its (app, asset) -/
+
+theorem reward_pay_le_fee {s s1 : State} {id app asset : Nat} {ρ : Int} (hρ : 0 ≤ ρ) {l : Locker}
+    (hl : Store.get s.lockers id = some l) (hasset : l.asset = asset) (h : reward s id app asset (.pay ρ) = some s1) :
+    ρ ≤ fee s (app, asset) ∧ fee s1 (app, asset) = fee s (app, asset) - ρ := by
+  simp only [reward] at h
+  obtain ⟨_, l0, _, hl0, hle, _, hfees, _⟩ := payReward_spec hρ h
+  rw [hl] at hl0; cases hl0
+  subst hasset
+  refine ⟨hle, ?_⟩
+  unfold fee at *
+  rw [hfees, Store.get_put_self]; rfl
+
+/-- the reward step inside a successful deposit / withdraw / close / reward-calc message -/
+theorem msg_reward_some {s s' : State} {op : Op} (h : step s op = some s') :
+    (∀ u app asset id amt rw, op = .deposit u app asset id amt rw →
+      ∃ l s1, Store.get s.lockers id = some l ∧ l.asset = asset ∧ reward s id app asset rw = some s1) ∧
+    (∀ u app asset id amt rw, op = .withdraw u app asset id amt rw →
+      ∃ l s1, Store.get s.lockers id = some l ∧ l.asset = asset ∧ reward s id app asset rw = some s1) ∧
+    (∀ u app asset id rw, op = .close u app asset id rw →
+      ∃ l s1, Store.get s.lockers id = some l ∧ l.asset = asset ∧ reward s id app asset rw = some s1) ∧
+    (∀ app id rw, op = .rewardCalc app id rw →
+      ∃ l, Store.get s.lockers id = some l ∧ reward s id app l.asset rw = some s') := by
+  refine ⟨?_, ?_, ?_, ?_⟩
+  · intro u app asset id amt rw e; subst e
+    simp only [step] at h
+    split at h; · simp at h
+    split at h; · simp at h
+    rename_i l hg
+    obtain ⟨hl, hasset, _⟩ := lockerGuards_spec hg
+    split at h; · simp at h
+    rename_i s1 hrw
+    exact ⟨l, s1, hl, hasset, hrw⟩
+  · intro u app asset id amt rw e; subst e
+    simp only [step] at h
+    split at h; · simp at h
+    split at h; · simp at h
+    rename_i l hg
+    obtain ⟨hl, hasset, _⟩ := lockerGuards_spec hg
+    split at h; · simp at h
+    split at h; · simp at h
+    rename_i s1 hrw
+    exact ⟨l, s1, hl, hasset, hrw⟩
+  · intro u app asset id rw e; subst e
+    simp only [step] at h
+    split at h; · simp at h
+    split at h; · simp at h
+    rename_i l hg
+    obtain ⟨hl, hasset, _⟩ := lockerGuards_spec hg
+    split at h; · simp at h
+    rename_i s1 hrw
+    exact ⟨l, s1, hl, hasset, hrw⟩
+  · intro app id rw e; subst e
+    simp only [step] at h
+    split at h; · simp at h
+    split at h; · simp at h
+    split at h; · simp at h
+    rename_i l hl
+    split at h; · simp at h
+    exact ⟨l, hl, h⟩
 
 end Comdex.Locker
